@@ -84,7 +84,7 @@ path_seg = st.one_of(
 path = st.lists(path_seg, min_size=0, max_size=4).flatmap(
     lambda segs: st.booleans().map(lambda trail: "/" + "/".join(segs) + ("/" if trail and segs else "")))
 latin1 = st.text(alphabet=st.characters(min_codepoint=0x20, max_codepoint=0xFF, blacklist_characters="\x7f",
-                                        blacklist_categories=("Cc",)), max_size=12).map(lambda s: s.strip(" \xa0"))
+                                        blacklist_categories=("Cc",)), max_size=12).map(lambda s: s.strip(" "))      # only SP / HTAB is optional white space around a value
 hdr_name = st.text(alphabet=HDR_CHARS, min_size=1, max_size=8).filter(lambda n: n.lower() not in HDR_RESERVED)
 
 
